@@ -130,6 +130,44 @@ def replay_trigger(unit, obl):
                             induced_vector_potential=res.A_induced, applied_vector_potential=res.A_applied)
                 dt = res.dt
                 state["time"] += dt
+    # screening: at EVERY Euler step inside the self-consistency loop the operators must hold applied + induced potential of that
+    # iteration.  The real update() is driven; adaptive_euler_step is wrapped (on the instance) and reads the caller's locals.
+    import sys as _sys
+    for offset in ((0.0, 0.0), (-2.5, 1.5), (-12.5, 7.5)):
+        def field(x, y, z, offset=offset):
+            return np.stack([-0.5 * y + offset[0], 0.5 * x + offset[1], 0 * x], axis=1)
+        opts = tdgl.SolverOptions(solve_time=1, include_screening=True, adaptive=False, dt_init=1e-2, field_units="mT")
+        s = TDGLSolver(dev, opts, applied_vector_potential=field)
+        real_step = s.adaptive_euler_step
+        seen = []
+
+        def spy(*a, **kw):
+            fr = _sys._getframe(1).f_locals
+            if "A_induced" in fr:
+                cur = fr.get("current_A_applied", s.current_A_applied)
+                seen.append(float(np.abs(np.asarray(s.operators.link_exponents) - (np.asarray(cur) + np.asarray(fr["A_induced"]))).max()))
+            return real_step(*a, **kw)
+        s.adaptive_euler_step = spy
+        state = dict(step=0, time=0.0, dt=opts.dt_init)
+        vals = dict(psi=s.psi_init, mu=s.mu_init, supercurrent=np.zeros(s.num_edges), normal_current=np.zeros(s.num_edges),
+                    induced_vector_potential=np.zeros((s.num_edges, 2)))
+        dt = opts.dt_init
+        for step in range(40):
+            state.update(step=step)
+            del seen[:]
+            try:
+                res = s.update(state, RunningState({"dt": 1, "screening_iterations": 1}, 1), dt, **vals)
+            except RuntimeError:        # screening did not converge for this start state: not what is being replayed
+                break
+            n += 1
+            if seen and max(seen) > 0:
+                bad.append(dict(screening=True, constant_offset_of_A=offset, step=step, euler_steps_in_this_update=len(seen),
+                                max_abs_difference_between_operator_potential_and_applied_plus_induced=max(seen)))
+                break
+            vals = dict(psi=res.psi, mu=res.mu, supercurrent=res.supercurrent, normal_current=res.normal_current,
+                        induced_vector_potential=res.A_induced)
+            dt = res.dt
+            state["time"] += dt
     logging.disable(logging.NOTSET)
     if bad:
         return dict(confirmed=True, failing_input=bad[0], n_failing=len(bad), evaluations=n, tdgl_file=tdgl.__file__,
